@@ -1221,9 +1221,9 @@ fn garbage(w: &W, fmt: Fmt) -> Verdict {
 }
 
 /// Every partition of one tiny BED file into read() chunks and of the writer's output into
-/// accepted write() chunks (files of up to 11, thorough: 16 bytes).
+/// accepted write() chunks (files of up to 11, thorough: 12 bytes).
 fn bed_partitions(w: &W) -> Verdict {
-    let limit = if crate::world::thorough() { 16 } else { 11 };
+    let limit = if crate::world::thorough() { 12 } else { 11 };
     let k = w.draw(2) as usize;
     let mut models: Vec<BedModel> = vec![];
     for _ in 0..2 {
